@@ -18,6 +18,7 @@ EXPLANATION = (
     "C04.5 segments are not forgotten: add_segment stores the previous segment record and links it; "
     "C04.6 nothing is dropped on the way to the free routine: every GlobalAlloc::dealloc reaches Dlmalloc::free with its argument on every path, and every remainder split off in try_realloc_chunk is handed to dispose_chunk on every path. "
     "C04.7 the two comparisons reuse hinges on: tmalloc_large passes over a fitting tree chunk only under dvsize >= size, and release_unused_segments unmaps under chunk_top >= top. "
+    "C04.8 the catch-all tree bin (every size above compute_tree_index's bound) is walked with shift 0 in leftshift_for_tree_index, so the bits that order its tree are kept. "
     "NOT decided: the bound itself (a quantitative statement about fragmentation over arbitrary histories) and VmSize behaviour.")
 ASSUMPTIONS = ["dlmalloc's bin/tree invariants (not established here)"]
 
@@ -158,6 +159,37 @@ def run_one(ck, prog):
         return
     ctx = prog.ctx(fr)
     cfg = ctx.cfg
+    # ---- C04.8 the catch-all tree bin keeps every size bit ---------------------------------------------------------------------------------
+    # compute_tree_index sends every size above a bound to one last bin; the sizes in it differ in bits up to the top one, so the
+    # per-bin left shift the tree walks (tmalloc_large, insert_large_chunk) use must be 0 for it - any other shift discards
+    # the distinguishing bits, the tree loses its order and fitting free chunks are no longer found (growth instead of reuse).
+    from ..engine import dtable
+    cti, lsh = prog.fns.get(DL + "compute_tree_index"), prog.fns.get(D + "leftshift_for_tree_index")
+    if ck.anchor("C04.8", "compute_tree_index", cti) and ck.anchor("C04.8", "leftshift_for_tree_index", lsh):
+        cc, cl = prog.ctx(cti), prog.ctx(lsh)
+        last = set()
+        for edges in dtable.enumerate_paths(cc):
+            fs = [f for e in edges if e.kind == "sw" for f in cc.edge_facts(e)]
+            v = fold(dtable.path_return_value(cc, edges))
+            if v is not None and any(f[0] == "cmp" and f[1] in ("Gt", "Ge") and fold(f[3]) is not None for f in fs):
+                last.add(v)
+        ck.ob("C04.8", "catch-all-bin|anchor", len(last) == 1, fn=cti["path"], detail=f"constant bin indices returned under an unbounded `size > K` test: {sorted(last)}")
+        if len(last) == 1:
+            B = next(iter(last))
+            bad, seen_zero = [], 0
+            for edges in dtable.enumerate_paths(cl):
+                fs = [f for e in edges if e.kind == "sw" for f in cl.edge_facts(e)]
+                excluded = any(f[0] == "cmp" and f[1] == "Ne" and fold(f[3]) == B for f in fs) or any(f[0] == "cmp" and f[1] == "Eq" and fold(f[3]) not in (None, B) for f in fs)
+                if excluded:
+                    continue
+                v = fold(dtable.path_return_value(cl, edges))
+                if v == 0:
+                    seen_zero += 1
+                else:
+                    bad.append(edges)
+            ck.ob("C04.8", "catch-all-bin-shifts-by-zero", seen_zero >= 1 and not bad, fn=lsh["path"], path=cl.cfg.render_path([0] + [e.dst for e in bad[0]]) if bad else None,
+                  detail=f"for the catch-all tree bin ({B}) the tree-walk shift must be 0: that bin holds every size above the bound, a non-zero shift drops the bits that order its tree and free chunks in it stop being found")
+
     # ---- C04.2 coalescing --------------------------------------------------------------------------------------------------
     top_edges = []
     for sb in cfg.live_blocks():
@@ -182,7 +214,10 @@ def run_one(ck, prog):
     ck.ob("C04.3", "free-calls-sys_trim", len(trims) == 1, fn=fr["path"], detail=f"sys_trim call sites in free: {len(trims)}")
     for tb in trims:
         facts = panics.dominating_facts(ctx, tb)
-        ok = any(f[0] == "truth" and f[2] is True and isinstance(f[1], tuple) and f[1][0] == "call" and (f[1][1] or "").endswith("should_trim") for f in facts) and any(cfg.edge_dominates(e, tb) for e in top_edges)
+        is_tc = lambda z: z[0] == "field" and z[2] == "trim_check"
+        guard = any(f[0] == "truth" and f[2] is True and isinstance(f[1], tuple) and f[1][0] == "call" and (f[1][1] or "").endswith("should_trim") for f in facts) or \
+            any(f[0] == "cmp" and ((f[1] == "Gt" and mentions(f[3], ctx.prov, is_tc) and not mentions(f[2], ctx.prov, is_tc)) or (f[1] == "Lt" and mentions(f[2], ctx.prov, is_tc) and not mentions(f[3], ctx.prov, is_tc))) for f in facts)   # the helper written out
+        ok = guard and any(cfg.edge_dominates(e, tb) for e in top_edges)
         ck.ob("C04.3", "trim-on-top-merge-under-should_trim", ok, fn=fr["path"], site=ctx.site(tb), detail="sys_trim must be called on the top-merge edge when should_trim(topsize) holds")
     st = prog.fns.get(DL + "should_trim")
     if st is not None:
